@@ -280,10 +280,12 @@ func (p *podAssignCache) getOrCreateNodeInfo(nodeName string) (_ *nodeInfo, crea
 // NOTICE: nodeInfo should be locked before calling this method.
 func (p *podAssignCache) tryCleanup(name string, n *nodeInfo) {
 	if n.nodeMetric == nil && len(n.podInfos) == 0 {
-		n.deleted = true
 		// only delete action has the chance that goroutine holds two locks,
 		// and the order always will be nodeInfo lock first, then podAssignCache.items lock
 		p.items.CompareAndDelete(name, n)
+		// tag deleted only after the nodeInfo has left the cache: a writer that sees the flag without the
+		// lock then gets a new nodeInfo on its retry instead of this one again
+		n.deleted = true
 	}
 }
 
